@@ -372,7 +372,7 @@ fn panic_msg(p: &Box<dyn std::any::Any + Send>) -> String {
 
 fn call_event(tid: usize, st: &Step) -> Value {
     json!({"e":"Call","t":tid,"it":st.it,"op":st.op,"n":st.n.clone().unwrap_or(json!(0)),
-           "take":st.take.map(|x| x as i64).unwrap_or(-1),"pa":st.panic_at})
+           "take":st.take.map(|x| x as i64).unwrap_or(-1),"pa":st.panic_at,"via":st.via})
 }
 
 /// Runs a straight-line program of `&self` operations; used by workers and by the owner thread.
